@@ -72,6 +72,9 @@ impl Variant {
     }
 
     pub fn from_float(value: f64) -> Variant {
+        // zero has no sign worth showing (`-5 % 5`, `0 / -5`)
+        let value = if value == 0.0 { 0.0 } else { value };
+
         Variant {
             value_type: VariantType::Float,
             string_value: format!("{}", value),
